@@ -194,11 +194,34 @@ def worker_init(lane):
     sym.bind_all()
 
 
-def analyze(atoms, want=("conv", "sets", "sets_params", "chiral", "prim", "labels")):
+def analyze(atoms, want=("conv", "sets", "sets_params", "chiral", "prim", "labels"), reuse_first=None, first_getter=None):
     """Calls the real getters (monitors fire in situ).  Returns (observations dict, exceptions dict)."""
     import matid
-    an = matid.SymmetryAnalyzer(atoms, symmetry_tol=TOL)
+    if reuse_first is not None:
+        # history: the analyzer object analysed ANOTHER crystal before (all getters called, caches filled) and is then
+        # pointed at the target with set_system(); every postcondition must hold as for a fresh analyzer
+        an = matid.SymmetryAnalyzer(reuse_first, symmetry_tol=TOL)
+        with core.suspend():
+            try:
+                an.get_material_id(); an.get_wyckoff_sets_conventional(True); an.get_primitive_system()
+                an.get_wyckoff_letters_original(); an.get_is_chiral(); an.get_has_free_wyckoff_parameters()
+            except Exception:
+                pass
+        an.__dict__.pop("_verif_done", None)
+        an.set_system(atoms)
+    else:
+        an = matid.SymmetryAnalyzer(atoms, symmetry_tol=TOL)
     obs, errs = {}, {}
+    # lazy getters must not depend on the order in which they are first called: start with a random one
+    if first_getter is not None:
+        firsts = {"letters_original": an.get_wyckoff_letters_original, "has_free": an.get_has_free_wyckoff_parameters,
+                  "primitive": an.get_primitive_system, "letters_primitive": an.get_wyckoff_letters_primitive,
+                  "equivalent_conventional": an.get_equivalent_atoms_conventional,
+                  "sets_with_parameters": lambda: an.get_wyckoff_sets_conventional(True), "chiral": an.get_is_chiral}
+        try:
+            firsts[first_getter]()
+        except Exception as e:
+            errs["first:" + first_getter] = "%s: %s" % (type(e).__name__, str(e)[:300])
 
     def call(name, fn):
         try:
@@ -248,9 +271,21 @@ def run_crystal_case(case, want, exception_monitor, exception_key_prefix):
         out["info"] = out_info
         out["data"] = {"generator_discards": discards}
         return out, None, None, None
+    reuse_first = None
+    hr = np.random.default_rng([case["seed"], case["pres"], 4242])
+    if hr.random() < 0.3:
+        from ase.build import bulk
+        reuse_first = [bulk("Si", "diamond", a=5.43), bulk("NaCl", "rocksalt", a=5.64, cubic=True), bulk("Mg", "hcp", a=3.21, c=5.21),
+                       bulk("ZnS", "wurtzite", a=3.82, c=6.26)][int(hr.integers(4))]
     core.set_recorder(rec)
     try:
-        obs, errs, an = analyze(atoms, want)
+        first_getter = None
+        if hr.random() < 0.5:
+            first_getter = ["letters_original", "has_free", "primitive", "letters_primitive", "equivalent_conventional",
+                            "sets_with_parameters", "chiral"][int(hr.integers(7))]
+        obs, errs, an = analyze(atoms, want, reuse_first=reuse_first, first_getter=first_getter)
+        if reuse_first is not None:
+            rec.note("analyzer_reused_via_set_system")
     finally:
         core.set_recorder(None)
     for gname, msg in errs.items():
